@@ -3,7 +3,6 @@ package lib
 import (
 	"bytes"
 	"fmt"
-	"io"
 	"os"
 	"sort"
 	"strings"
@@ -125,14 +124,9 @@ func InspectCar(inStream *os.File, verifyHashes bool) (*Report, error) {
 		return nil, err
 	}
 
-	if stats.Version == 1 && verifyHashes { // check that we've read all the data
-		got, err := inStream.Read(make([]byte, 1)) // force EOF
-		if err != nil && err != io.EOF {
-			return nil, err
-		} else if got > 0 {
-			return nil, fmt.Errorf("unexpected data after EOF: %d", got)
-		}
-	}
+	// Note: Inspect reads through io.ReaderAt and never advances inStream, so reading from inStream
+	// here says nothing about trailing data (it used to reject every CARv1). A CARv1 is scanned up
+	// to its end (or to its null padding) by Inspect itself.
 
 	rep := Report{
 		Version:      int(stats.Version),
